@@ -33,6 +33,7 @@ static void *bp_getspecific(pthread_key_t k) { (void) k; return bp_key_val; }
 #define BP_STRIDE (1UL << 16)
 #define BP_MAXCHUNK 16
 static char *bp_region;
+static int bp_desc;	/* odd seeds: every new mapping lies BELOW the previous ones (the usual top-down mmap layout of Linux), even seeds: above */
 static struct bp_chunk { char *base; size_t size; int id; } bp_chunks[BP_MAXCHUNK];
 static int bp_nchunks, bp_nregions, bp_nmremap;
 static unsigned long bp_mremap_fail;
@@ -43,7 +44,8 @@ static char *bp_new_region(void)
 		if (bp_region == MAP_FAILED) abort();
 	}
 	if (bp_nregions == BP_MAXCHUNK) abort();
-	return bp_region + BP_STRIDE * bp_nregions++;
+	int k = bp_nregions++;
+	return bp_region + BP_STRIDE * (bp_desc ? BP_MAXCHUNK - 1 - k : k);
 }
 static void *bp_mmap(void *a, size_t len, int prot, int fl, int fd, off_t off)
 {
@@ -333,8 +335,19 @@ int main(int argc, char **argv)
 	urcu_bp_has_sys_membarrier = getenv("BP_SYSMB") ? atoi(getenv("BP_SYSMB")) : 0;
 	if (use_sighandler) vrt_set_sighandler(sig_handler);
 	for (int k = 0; k < np; k++) if (P[k].started) vrt_spawn(P[k].name, runner, &P[k]);
+	bp_desc = (int) (o.seed & 1);
 	vrt_run(&o);
 	for (int k = 0; k < np; k++) if (!P[k].done) { fprintf(stderr, "VRT-FAIL DRIVER thread %s never ran to completion\n", P[k].name); _exit(3); }
 	if (nlive || !cds_list_empty(&registry)) { fprintf(stderr, "VRT-FAIL ORACLE registry not empty after every thread exited (%d live)\n", nlive); _exit(3); }
+	/* ChunkAccounting oracle (at quiescence): every chunk's `used` counter equals the number of its slots marked allocated (here: none) */
+	{
+		struct registry_chunk *c; int ci = 0;
+		cds_list_for_each_entry(c, &registry_arena.chunk_list, node) {
+			size_t n = 0;
+			for (struct urcu_bp_reader *r = (struct urcu_bp_reader *) &c->readers[0]; r < (struct urcu_bp_reader *) &c->readers[c->capacity]; r++) n += r->alloc ? 1 : 0;
+			if (n != c->used) { fprintf(stderr, "VRT-FAIL ORACLE chunk #%d of the registry arena: used = %zd but %zu slots are marked allocated (slot released through the wrong chunk)\n", ci, (ssize_t) c->used, n); _exit(3); }
+			ci++;
+		}
+	}
 	_exit(0);
 }
